@@ -52,7 +52,37 @@ def gen_pred(rng, var, d):
     a, sa = gen_pa(rng, var, d)
     b, sb = gen_pa(rng, var, min(d, 1))
     op = rng.choice(["<", "<=", ">", ">=", "==", "!="])
+    if rng.random() < 0.15:
+        return f"not ({a} {op} {b})", ["not", op, sa, sb]
     return f"{a} {op} {b}", [op, sa, sb]
+
+
+def gen_guard(rng, nvar: List[int], d_choices=(0, 1, 2)):
+    """The filter between a collection and its consumer -> (source suffix, guard on the wire).
+    none | one Where | Where(p and q [and r]) | Where(p or q [or r]) | Where(p).Where(q) (func_adl fuses it into `and`)"""
+    k = rng.random()
+    if k < 0.3:
+        return "", []
+    nvar[0] += 1
+    v = f"x{nvar[0]}"
+    if k < 0.6:
+        p, sp = gen_pred(rng, v, rng.choice(list(d_choices)))
+        return f".Where(lambda {v}: {p})", [sp]
+    n = rng.choice([2, 2, 3])
+    if k < 0.9:
+        word = rng.choice(["and", "or"])
+        ps = [gen_pred(rng, v, rng.choice([0, 1])) for _ in range(n)]
+        return f".Where(lambda {v}: " + f" {word} ".join(p for p, _ in ps) + ")", [word] + [sp for _, sp in ps]
+    # chained Where calls, each with its own variable
+    src, sx = "", ["and"]
+    for i in range(2):
+        if i:
+            nvar[0] += 1
+            v = f"x{nvar[0]}"
+        p, sp = gen_pred(rng, v, rng.choice([0, 1]))
+        src += f".Where(lambda {v}: {p})"
+        sx.append(sp)
+    return src, sx
 
 
 def gen_count(rng, uni: qgen.Universe, ev: str, uses: List[Tuple[str, str]], nvar: List[int]):
@@ -61,16 +91,8 @@ def gen_count(rng, uni: qgen.Universe, ev: str, uses: List[Tuple[str, str]], nva
     uses.append((name, bank))
     ct, _ = uni.colls[name]
     arrow = uni.backend == "atlas"
-    src = f'{ev}.{name}("{bank}")'
-    preds = []
-    # func_adl fuses Where(p).Where(q) into Where(p and q) (lowered through a bool_op variable): the fragment
-    # has at most one Where per Count
-    for _ in range(rng.choice([0, 1, 1])):
-        nvar[0] += 1
-        v = f"x{nvar[0]}"
-        p, sp = gen_pred(rng, v, rng.choice([0, 1, 2]))
-        src += f".Where(lambda {v}: {p})"
-        preds.append(sp)
+    g_src, preds = gen_guard(rng, nvar)
+    src = f'{ev}.{name}("{bank}")' + g_src
     if rng.random() < 0.45:
         nvar[0] += 1
         v = f"y{nvar[0]}"
@@ -107,14 +129,8 @@ def gen_vec(rng, uni: qgen.Universe, ev: str, uses, nvar):
     uses.append((name, bank))
     ct, _ = uni.colls[name]
     arrow = uni.backend == "atlas"
-    src = f'{ev}.{name}("{bank}")'
-    preds = []
-    if rng.random() < 0.5:
-        nvar[0] += 1
-        v = f"x{nvar[0]}"
-        p, sp = gen_pred(rng, v, rng.choice([0, 1]))
-        src += f".Where(lambda {v}: {p})"
-        preds.append(sp)
+    g_src, preds = gen_guard(rng, nvar, (0, 1))
+    src = f'{ev}.{name}("{bank}")' + g_src
     nvar[0] += 1
     v = f"y{nvar[0]}"
     b, sb = gen_pa(rng, v, rng.choice([0, 1, 2]), funs=True)
@@ -128,14 +144,8 @@ def gen_first(rng, uni: qgen.Universe, ev: str, uses, nvar):
     uses.append((name, bank))
     ct, _ = uni.colls[name]
     arrow = uni.backend == "atlas"
-    src = f'{ev}.{name}("{bank}")'
-    preds = []
-    if rng.random() < 0.6:
-        nvar[0] += 1
-        v = f"x{nvar[0]}"
-        p, sp = gen_pred(rng, v, rng.choice([0, 1]))
-        src += f".Where(lambda {v}: {p})"
-        preds.append(sp)
+    g_src, preds = gen_guard(rng, nvar, (0, 1))
+    src = f'{ev}.{name}("{bank}")' + g_src
     if rng.random() < 0.5:
         m = rng.choice(["pt", "eta", "phi", "m"])
         return src + f".First().{m}()", ["first", name.lower(), ct, bank, arrow, preds, ["meth", m], "@THROW@"]
@@ -243,14 +253,8 @@ def gen_query_f1(rng: random.Random, uni: qgen.Universe, depth: int):
     uses.append((name, bank))
     ct, _ = uni.colls[name]
     arrow = uni.backend == "atlas"
-    seq = f'e.{name}("{bank}")'
-    preds = []
-    if rng.random() < 0.5:
-        nvar[0] += 1
-        v = f"x{nvar[0]}"
-        p, sp = gen_pred(rng, v, rng.choice([0, 1, 2]))
-        seq += f".Where(lambda {v}: {p})"
-        preds.append(sp)
+    g_src, preds = gen_guard(rng, nvar)
+    seq = f'e.{name}("{bank}")' + g_src
     nvar[0] += 1
     v = f"y{nvar[0]}"
     body, cols = gen_prow(rng, v)
